@@ -1,1 +1,5 @@
-CHECKS = {}
+import flags_check
+
+CHECKS = {
+    "C17": flags_check.run,
+}
